@@ -380,7 +380,29 @@ func c18(r *core.Run) {
 		}
 		for i, x := range all {
 			fn, buf := x.fn, x.buf
-			ok, desc, segs, _ := layoutCheckBuf(p, fn, buf)
+			// a helper that makes the buffer and returns it partly filled is judged together with the
+			// marshaller that completes it
+			var via ssa.CallInstruction
+			if fn != top {
+				returnsBuf := false
+				for _, ret := range core.Returns(fn) {
+					for _, rv := range ret.Results {
+						for _, src := range phiSources(rv) {
+							if src.V == ssa.Value(buf) {
+								returnsBuf = true
+							}
+						}
+					}
+				}
+				if returnsBuf {
+					for _, c := range p.CallersOf(fn) {
+						if c.Parent() == top {
+							via = c
+						}
+					}
+				}
+			}
+			ok, desc, segs, _ := layoutCheckBufIn(p, fn, buf, via)
 			r.Check(ok, "B1", core.FuncName(fn), fmt.Sprintf("buffer#%d-exactly-filled", i), p.InstrPos(buf), desc, "hand-assembled JSON buffer is not exactly filled for every input length: "+desc)
 			// B2: variable segments
 			for _, b := range fn.Blocks {
